@@ -73,26 +73,40 @@ def catalogue_names():
     return list(c03_catalogue.MODELS)
 
 
-PRIORS_OF = {"front": ("fresh", "none"), "front-nofork": ("none",), "busy": ("busy",), "solo": ("exec-fresh",)}
+PRIORS_OF = {"front": ("none",), "front-fresh": ("fresh", "none"), "busy": ("busy",), "solo": ("exec-fresh",)}
 
 
 def build_envs(tier, seed, names):
-    """Worker jobs.  mode 'front': pristine interpreter -> every model in a forked child (prior
-    'fresh'), then the catalogue in order in-process (prior 'none' = the models before it);
-    mode 'busy': three unrelated simulations + 10k events, catalogue backwards; mode 'solo'
-    (thorough): one model alone in a freshly exec'ed interpreter (prior 'exec-fresh')."""
+    """Worker jobs (one interpreter each).
+    mode 'front'      : the catalogue in order in-process (prior 'none' = the models before it);
+    mode 'front-fresh': first every model in a forked child of the still pristine interpreter
+                        (prior 'fresh': nothing was built or run before), then as 'front';
+    mode 'busy'       : three unrelated simulations + 10k events, then the catalogue backwards;
+    mode 'solo'       : (thorough) one model alone in a newly exec'ed interpreter (prior 'exec-fresh').
+    quick forks the 'fresh' pass under the default hash seed / real clock only (first seed);
+    thorough under every hash seed with the real clock (all seeds)."""
     seeds = model_seeds(seed)
     jobs = []
     for hs, clock, mode in itertools.product(hash_menu(tier, seed), ("real", "warp"), ("front", "busy")):
-        if mode == "front" and clock == "warp" and tier == "quick":
-            mode = "front-nofork"  # quick: the forked 'fresh' pass only under the real clock
-        jobs.append({"hashseed": hs, "clock": clock, "mode": mode, "models": None, "reps": 2, "seeds": seeds})
+        job = {"hashseed": hs, "clock": clock, "mode": mode, "models": None, "reps": 2, "seeds": seeds}
+        if mode == "front" and clock == "real" and (tier == "thorough" or hs == BASE_HASH):
+            job["mode"] = "front-fresh"
+            job["fresh_seeds"] = seeds if tier == "thorough" else seeds[:1]
+        jobs.append(job)
     if tier == "thorough":
         for name in names:
-            for hs in hash_menu(tier, seed):
+            for hs in (BASE_HASH, derived_hashseed(seed)):
                 jobs.append({"hashseed": hs, "clock": "real", "mode": "solo", "models": [name], "reps": 2,
                              "seeds": seeds})
     return jobs
+
+
+def expected_rows(job, names):
+    nm = len(job["models"] or names)
+    n = nm * len(job["seeds"]) * job["reps"]
+    if job["mode"] == "front-fresh":
+        n += nm * len(job["fresh_seeds"]) * job["reps"]
+    return n
 
 
 # ---------------------------------------------------------------------------
@@ -102,9 +116,9 @@ def run_worker(job, dump=None, timeout=WORKER_TIMEOUT_S):
     spec = {"clock": job["clock"], "prior": "busy" if job["mode"] == "busy" else "none",
             "seeds": job["seeds"], "models": job["models"], "reps": job["reps"], "dump": dump}
     if job["mode"] == "solo":
-        spec.update({"fresh": False, "label": "exec-fresh"})
-    elif job["mode"] == "front-nofork":
-        spec["fresh"] = False
+        spec["label"] = "exec-fresh"
+    elif job["mode"] == "front-fresh":
+        spec["fresh"] = {"seeds": job["fresh_seeds"], "par": 4}
     env = dict(os.environ)
     env["PYTHONHASHSEED"] = str(job["hashseed"])
     env.pop("PYTHONPATH", None)
@@ -275,7 +289,7 @@ def main(tier, seed, only=None):
     default_env = (BASE_HASH, "fresh", "real")
     for res in results:
         job = res["job"]
-        expect = len(job["models"] or names) * len(job["seeds"]) * job["reps"] * len(PRIORS_OF[job["mode"]])
+        expect = expected_rows(job, names)
         if res["rc"] != 0 or len(res["rows"]) != expect:
             d.exhaustive = False
             d.caps.append(f"worker hashseed={job['hashseed']} clock={job['clock']} mode={job['mode']} "
